@@ -13,11 +13,13 @@ Value JSON (tagged lists; metadata is null or a list of [key, value] pairs):
   ["u", "<uuid>"] ["t", "<isoformat>"] ["re", [code points]] ["by", [bytes]]
   ["x", text]  anything else (only produced when describing what was read back)
 
-run(case) with case = {"v": value, "pc": [dup, meta, nsmaps], "via": 0|1}:
+run(case) with case = {"v": value, "pc": [dup, meta, nsmaps], "via": 0|1, "lim": [length, level]}
+("lim" optional, default [null, null]; each limit is null or a small integer):
   via 0: basilisp.lang.obj.lrepr (all print settings passed explicitly, as runtime.lrepr
-         does) and basilisp.lang.reader.read_str;
-  via 1: basilisp.core/pr-str under `binding` of the four print Vars, basilisp.core/read-seq
-         (to count the forms) and basilisp.core/read-string.
+         does: print_length / print_level are the two limits) and basilisp.lang.reader.read_str;
+  via 1: basilisp.core/pr-str under `binding` of the six print Vars (*print-length* and
+         *print-level* bound to the two limits), basilisp.core/read-seq (to count the forms)
+         and basilisp.core/read-string.
 Result: {"text": [code points], "n": forms read, "back": first form, "refix": 0|1|2,
          "det": printing twice gives one text, "walk": the ORIGINAL value described in the
          order the implementation iterates its sets and maps}
@@ -254,13 +256,14 @@ def erase_meta(j):
 
 
 # ---- the round trip --------------------------------------------------------------------
-def printer(via, pc):
+def printer(via, pc, lim=(None, None)):
     dup, meta, nsmaps = pc
+    length, level = lim
     if via == 0:
         lrepr = _f["obj"].lrepr
-        return lambda v: lrepr(v, human_readable=False, print_dup=dup, print_length=None, print_level=None,
+        return lambda v: lrepr(v, human_readable=False, print_dup=dup, print_length=length, print_level=level,
                                print_meta=meta, print_namespace_maps=nsmaps, print_readably=True)
-    binds = dict(zip(_f["vars"], [dup, meta, nsmaps, True, None, None]))
+    binds = dict(zip(_f["vars"], [dup, meta, nsmaps, True, length, level]))
 
     def pr(v):
         with _f["runtime"].bindings(binds):
@@ -274,7 +277,10 @@ def run(case):
     walk = ser(v)
     if canon(walk) != canon(case["v"]):
         return {"__error__": "build/ser disagree", "msg": json.dumps([walk, case["v"]])[:300]}
-    pr = printer(case["via"], case["pc"])
+    lim = case.get("lim") or [None, None]
+    if any(x is not None and (isinstance(x, bool) or not isinstance(x, int)) for x in lim):
+        return {"__error__": "limit is neither null nor an integer"}
+    pr = printer(case["via"], case["pc"], lim)
     try:
         text = pr(v)
         text2 = pr(v)
